@@ -49,7 +49,9 @@ struct Drv {
   nsleep: usize,
   intr_ok: bool,          // no two interruptions without a device report in between (the loop sleeps 4 s by design)
   arr_k: Vec<Value>, arr_t: Vec<Value>,  // arrivals delivered since the last logged call
-  malformed_write: bool   // system-call mode: the bytes of the write being logged were not a well-formed batch
+  malformed_write: bool,  // system-call mode: the bytes of the write being logged were not a well-formed batch
+  log_state: bool,        // walks: log the shadow mapper's state next to every event it is given
+  phys_down: Vec<KeyCode> // keys down on the scripted device (what EVIOCGKEY reports in the full-stack runs)
 }
 
 impl Drv {
@@ -58,6 +60,7 @@ impl Drv {
     if self.ended { return; }           // nothing arrives after end-of-device
     self.arr_k.push(match &e { Some(e) => jev(e), None => json!({"t": "E", "k": ""}) });
     if e.is_none() { self.ended = true; }
+    match &e { Some(Event::Pressed(k)) => { if !self.phys_down.contains(k) { self.phys_down.push(*k); } }, Some(Event::Released(k)) => self.phys_down.retain(|h| h != k), None => () }
     self.kq.push_back(e); self.k_ready = true;
   }
   fn arrive_t(&mut self, on: bool) {
@@ -169,6 +172,7 @@ impl ScriptedDriver for Drv {
           let b = self.fresh.step(e.clone());
           rec["ref"] = json!({"ev": jevs(&a.events), "rep": jrep(&a.repeat)});
           rec["ref2"] = json!({"ev": jevs(&b.events), "rep": jrep(&b.repeat)});
+          if self.log_state { rec["st"] = jstate(&self.shadow.verif_snapshot()); }
         }
         VNext::One(e)
       }
@@ -190,6 +194,7 @@ impl ScriptedDriver for Drv {
         let evs = self.shadow.release_all();
         self.fresh = Mapper::for_layout(&self.layout);     // "resumes as from a fresh start"
         rec["res"] = json!("one"); rec["on"] = json!(on); rec["ref"] = json!({"ev": jevs(&evs)});
+        if self.log_state { rec["st"] = jstate(&self.shadow.verif_snapshot()); }
         VNext::One(on)
       }
     };
@@ -226,7 +231,7 @@ fn new_drv(layout: &Layout, labels: &[Lbl], fault: usize, sleep: &[String]) -> D
     k_ready: false, t_ready: false, ended: false, log: vec![],
     shadow: Mapper::for_layout(layout), fresh: Mapper::for_layout(layout), layout: layout.clone(), in_tab: false,
     calls: 0, fault, cap: 400 + 20 * labels.len(), sleep: sleep.to_vec(), nsleep: 0, intr_ok: true, arr_k: vec![], arr_t: vec![],
-    malformed_write: false
+    malformed_write: false, log_state: false, phys_down: vec![]
   }
 }
 
@@ -266,6 +271,10 @@ pub fn cmd_loop(path: &str) {
     let noise = c["noise"].as_u64().unwrap_or(0) as u8;
     let with_tablet = c["tablet"].as_bool().unwrap_or(true);
     let werr = c["werr"].as_i64().unwrap_or(5) as i32;
+    if c["mode"].as_str() == Some("full") {
+      run_one_full(&id, &layout, &labels, &parse_su_labels(&c["su"]), noise, &mut out);
+      continue;
+    }
     let mut run = |tid: &str, k: usize, out: &mut dyn Write| -> usize {
       if sys { run_one_sys(tid, &layout, &labels, k, &sleep, noise, werr, with_tablet, out) } else { run_one(tid, &layout, &labels, k, &sleep, out) }
     };
@@ -304,11 +313,27 @@ struct Sys {
   kfd: i32, tfd: i32, wfd: i32,
   kbytes: VecDeque<[u8; 24]>, tbytes: VecDeque<[u8; 24]>,
   noise: u8,
+  full: Option<Full>,    // full-stack run: open_device's start-up is scripted as well
+  down: Vec<u16>,        // key codes down on the scripted device (for the auto-repeat noise)
   werr: i32,             // errno of an injected write failure (EIO, or one the readers treat as 'no data' / 'gone')
   unknown_code: u16
 }
 
-thread_local! { static SYS: RefCell<Option<Sys>> = RefCell::new(None); }
+// one scripted run at a time per process (the recorder runs its cases one after the other; parallelism is by processes).
+// Global rather than thread-local because the full-stack runs let the code under test spawn the device thread itself.
+static GSYS: std::sync::Mutex<Option<Sys>> = std::sync::Mutex::new(None);
+
+fn sys_install(sys: Sys) { *GSYS.lock().unwrap_or_else(|e| e.into_inner()) = Some(sys); }
+fn sys_take() -> Sys { GSYS.lock().unwrap_or_else(|e| e.into_inner()).take().unwrap() }
+// runs f on the installed script if there is one and f claims the call (Some); None = pass the call through to the kernel
+fn with_sys<R>(f: impl FnOnce(&mut Sys) -> Option<R>) -> Option<R> {
+  let mut g = match GSYS.try_lock() {
+    Ok(g) => g,
+    Err(std::sync::TryLockError::Poisoned(e)) => e.into_inner(),
+    Err(std::sync::TryLockError::WouldBlock) => return None
+  };
+  match g.as_mut() { Some(sys) => f(sys), None => None }
+}
 
 fn frame(type_: u16, code: u16, value: i32) -> [u8; 24] {
   let mut b = [0u8; 24];
@@ -323,6 +348,14 @@ const E_AGAIN: i32 = 11; const E_NODEV: i32 = 19; const E_IO: i32 = 5; const E_I
 impl Sys {
   // -> (return value, errno)
   fn epoll_wait(&mut self, events: *mut libc::epoll_event, maxevents: i32, timeout_ms: i32) -> (i32, i32) {
+    if let Some(f) = self.full.as_mut() {
+      if !f.registered {
+        // the loop's own registration went to the kernel; EPOLL_CTL_ADD reports a descriptor that is readable already
+        f.registered = true;
+        let _ = ScriptedDriver::register_poll(&mut self.d);
+        self.d.k_ready = !self.d.kq.is_empty();
+      }
+    }
     let timeout = if timeout_ms < 0 { None } else { Some(Duration::from_millis(timeout_ms as u64)) };
     match ScriptedDriver::poll(&mut self.d, timeout) {
       Err(_) => (-1, E_IO),
@@ -349,6 +382,11 @@ impl Sys {
   // further events that are waiting in the device queue (each is one more logged read of the scripted device)
   fn push_key_frames(&mut self, e: &Event) {
     let (code, value) = match e { Event::Pressed(k) => (*k as u16, 1), Event::Released(k) => (*k as u16, 0) };
+    if self.noise >= 3 {
+      // a device that re-sends every key that is down as auto-repeat before each report
+      for c in self.down.clone() { self.kbytes.push_back(frame(1, c, 2)); self.kbytes.push_back(frame(0, 0, 0)); }
+    }
+    if value == 1 { if !self.down.contains(&code) { self.down.push(code); } } else { self.down.retain(|c| *c != code); }
     if self.noise >= 1 { self.kbytes.push_back(frame(4, 4, code as i32)); }            // MSC_SCAN
     if self.noise >= 2 { self.kbytes.push_back(frame(1, self.unknown_code, 1)); }       // a key the tool has no name for
     self.kbytes.push_back(frame(1, code, value));
@@ -439,41 +477,51 @@ unsafe fn set_errno(e: i32) { *libc::__errno_location() = e; }
 
 #[no_mangle]
 pub unsafe extern "C" fn epoll_wait(epfd: libc::c_int, events: *mut libc::epoll_event, maxevents: libc::c_int, timeout: libc::c_int) -> libc::c_int {
-  let r = SYS.try_with(|s| match s.try_borrow_mut() { Ok(mut g) => g.as_mut().map(|sys| sys.epoll_wait(events, maxevents, timeout)), Err(_) => None });
-  match r {
-    Ok(Some((ret, errno))) => { if ret < 0 { set_errno(errno); } ret },
-    _ => libc::syscall(libc::SYS_epoll_wait, epfd, events, maxevents, timeout) as libc::c_int
+  match with_sys(|sys| Some(if sys.full.as_ref().map(|f| f.phase == 0).unwrap_or(false) { sys.su_poll(events) } else { sys.epoll_wait(events, maxevents, timeout) })) {
+    Some((ret, errno)) => { if ret < 0 { set_errno(errno); } ret },
+    None => libc::syscall(libc::SYS_epoll_wait, epfd, events, maxevents, timeout) as libc::c_int
   }
 }
 
 #[no_mangle]
 pub unsafe extern "C" fn read(fd: libc::c_int, buf: *mut libc::c_void, count: libc::size_t) -> libc::ssize_t {
-  let r = SYS.try_with(|s| match s.try_borrow_mut() {
-    Ok(mut g) => match g.as_mut() {
-      Some(sys) if fd == sys.kfd => Some(sys.read_k(buf as *mut u8, count)),
-      Some(sys) if fd == sys.tfd => Some(sys.read_t(buf as *mut u8, count)),
-      _ => None
-    },
-    Err(_) => None
-  });
-  match r {
-    Ok(Some((ret, errno))) => { if ret < 0 { set_errno(errno); } ret },
-    _ => libc::syscall(libc::SYS_read, fd, buf, count) as libc::ssize_t
+  match with_sys(|sys| {
+    if fd == sys.kfd { Some(if sys.full.as_ref().map(|f| f.phase == 0).unwrap_or(false) { sys.su_read(buf as *mut u8, count) } else { sys.read_k(buf as *mut u8, count) }) }
+    else if fd == sys.tfd { Some(sys.read_t(buf as *mut u8, count)) }
+    else { None }
+  }) {
+    Some((ret, errno)) => { if ret < 0 { set_errno(errno); } ret },
+    None => libc::syscall(libc::SYS_read, fd, buf, count) as libc::ssize_t
   }
 }
 
 #[no_mangle]
 pub unsafe extern "C" fn write(fd: libc::c_int, buf: *const libc::c_void, count: libc::size_t) -> libc::ssize_t {
-  let r = SYS.try_with(|s| match s.try_borrow_mut() {
-    Ok(mut g) => match g.as_mut() {
-      Some(sys) if fd == sys.wfd => Some(sys.write_w(buf as *const u8, count)),
-      _ => None
-    },
-    Err(_) => None
-  });
-  match r {
-    Ok(Some((ret, errno))) => { if ret < 0 { set_errno(errno); } ret },
-    _ => libc::syscall(libc::SYS_write, fd, buf, count) as libc::ssize_t
+  match with_sys(|sys| {
+    if fd != sys.wfd { None }
+    else if sys.full.as_ref().map(|f| f.phase < 2).unwrap_or(false) { Some(sys.su_udev_write(buf as *const u8, count)) }
+    else { Some(sys.write_w(buf as *const u8, count)) }
+  }) {
+    Some((ret, errno)) => { if ret < 0 { set_errno(errno); } ret },
+    None => libc::syscall(libc::SYS_write, fd, buf, count) as libc::ssize_t
+  }
+}
+
+// full-stack runs only: the three device nodes open_device opens, and the ioctls it issues on them
+#[no_mangle]
+pub unsafe extern "C" fn open(path: *const libc::c_char, flags: libc::c_int, mode: libc::mode_t) -> libc::c_int {
+  let p = if path.is_null() { String::new() } else { std::ffi::CStr::from_ptr(path).to_string_lossy().into_owned() };
+  match with_sys(|sys| if sys.full.is_some() { sys.su_open(&p, flags) } else { None }) {
+    Some(fd) => fd,
+    None => libc::syscall(libc::SYS_open, path, flags, mode as libc::c_uint) as libc::c_int
+  }
+}
+
+#[no_mangle]
+pub unsafe extern "C" fn ioctl(fd: libc::c_int, req: libc::c_ulong, arg: *mut libc::c_void) -> libc::c_int {
+  match with_sys(|sys| if sys.full.is_some() && (fd == sys.kfd || fd == sys.wfd || fd == sys.tfd) { Some(sys.su_ioctl(fd, req, arg)) } else { None }) {
+    Some((ret, errno)) => { if ret < 0 { set_errno(errno); } ret },
+    None => libc::syscall(libc::SYS_ioctl, fd, req, arg) as libc::c_int
   }
 }
 
@@ -491,11 +539,220 @@ fn run_one_sys(id: &str, layout: &Layout, labels: &[Lbl], fault: usize, sleep: &
   d.fault = fault;
   let (kfd, tfd, wfd) = (new_fd(), if with_tablet { new_fd() } else { -1 }, new_fd());
   let unknown_code = (1u16..768).rev().find(|c| <KeyCode as FromPrimitive>::from_u16(*c).is_none()).unwrap_or(767);
-  SYS.with(|s| *s.borrow_mut() = Some(Sys { d, kfd, tfd, wfd, kbytes: VecDeque::new(), tbytes: VecDeque::new(), noise, werr, unknown_code }));
+  sys_install(Sys { d, kfd, tfd, wfd, kbytes: VecDeque::new(), tbytes: VecDeque::new(), noise, full: None, down: vec![], werr, unknown_code });
   let lay = layout.clone();
   let r = std::panic::catch_unwind(std::panic::AssertUnwindSafe(|| crate::remapping_loop::verif::run_real_driver(kfd, wfd, if with_tablet { Some(tfd) } else { None }, lay)));
-  let sys = SYS.with(|s| s.borrow_mut().take()).unwrap();
+  let sys = sys_take();
   unsafe { libc::close(kfd); if tfd >= 0 { libc::close(tfd); } libc::close(wfd); }
   write_trace(id, layout, fault, sleep, &sys.d, r, json!({"mode": "sys", "slack": 999, "errtext": false, "noise": noise, "werr": werr}), out);
+  sys.d.calls
+}
+
+// A history of the mapper's walks (tabulate.rs: cmd_walk) taken through the real loop and the real driver at the
+// system-call level: one event per wake-up, a reset = the tablet switch going on and off within one wake-up. The result
+// has the shape of a direct walk - per event what was WRITTEN to the virtual keyboard after it was read, plus the state
+// and the repeat request of the shadow mapper that is given the same events - and is judged by the same MapperTrace.tla.
+pub fn walk_via_loop(layout: &Layout, history: &[Option<Event>], noise: u8) -> Vec<Value> {
+  let mut labels: Vec<Lbl> = vec![];
+  for h in history {
+    match h {
+      Some(e) => { labels.push(Lbl::ArrK(Some(e.clone()))); labels.push(Lbl::PollDev(true)); labels.push(Lbl::ReadK); labels.push(Lbl::ReadK); },
+      None => { labels.push(Lbl::ArrT(true)); labels.push(Lbl::ArrT(false)); labels.push(Lbl::PollDev(true)); labels.push(Lbl::ReadT); labels.push(Lbl::ReadT); labels.push(Lbl::ReadT); }
+    }
+  }
+  let mut d = new_drv(layout, &labels, 0, &[]);
+  d.log_state = true;
+  d.cap = 100 + 12 * labels.len();
+  let _ = ScriptedDriver::register_poll(&mut d);
+  let (kfd, tfd, wfd) = (new_fd(), new_fd(), new_fd());
+  let unknown_code = (1u16..768).rev().find(|c| <KeyCode as FromPrimitive>::from_u16(*c).is_none()).unwrap_or(767);
+  sys_install(Sys { d, kfd, tfd, wfd, kbytes: VecDeque::new(), tbytes: VecDeque::new(), noise, full: None, down: vec![], werr: E_IO, unknown_code });
+  let lay = layout.clone();
+  let r = std::panic::catch_unwind(std::panic::AssertUnwindSafe(|| crate::remapping_loop::verif::run_real_driver(kfd, wfd, Some(tfd), lay)));
+  let sys = sys_take();
+  unsafe { libc::close(kfd); libc::close(tfd); libc::close(wfd); }
+  let mut out: Vec<Value> = vec![];
+  let mut cur: Option<Value> = None;
+  for rec in &sys.d.log {
+    match (rec["c"].as_str().unwrap_or(""), rec["res"].as_str().unwrap_or("")) {
+      ("kbd", "one") => {
+        if let Some(c) = cur.take() { out.push(c); }
+        cur = Some(json!({"c": "step", "e": rec["e"], "ev": [], "rep": rec["ref"]["rep"], "st": rec["st"], "panic": ""}));
+      },
+      ("tab", "one") => {
+        let ra = cur.as_ref().map(|c| c["e"]["t"].as_str() == Some("RA")).unwrap_or(false);
+        if ra { cur.as_mut().unwrap()["st"] = rec["st"].clone(); }
+        else {
+          if let Some(c) = cur.take() { out.push(c); }
+          cur = Some(json!({"c": "step", "e": {"t": "RA", "k": ""}, "ev": [], "rep": {"kind": "NoChange"}, "st": rec["st"], "panic": ""}));
+        }
+      },
+      ("send", "ok") => {
+        if let Some(c) = cur.as_mut() { for e in rec["evs"].as_array().unwrap() { c["ev"].as_array_mut().unwrap().push(e.clone()); } }
+      },
+      _ => ()
+    }
+  }
+  if let Some(c) = cur.take() { out.push(c); }
+  // a loop that panicked or gave up is a walk that ends in a panic record (judged by C14 only)
+  let bad = match r { Ok(Ok(())) => String::new(), Ok(Err(e)) => format!("the loop returned an error: {}", e), Err(e) => panic_msg(e) };
+  if !bad.is_empty() {
+    let st = out.last().map(|c| c["st"].clone()).unwrap_or(jstate(&Mapper::for_layout(layout).verif_snapshot()));
+    out.push(json!({"c": "step", "e": {"t": "RA", "k": ""}, "ev": [], "rep": {"kind": "NoChange"}, "st": st, "panic": bad}));
+  }
+  out
+}
+
+// ---------------------------------------------------------------------------------------------
+// Full-stack runs: do_remapping_loop_these_devices itself, i.e. open_device (DevInputReader::open with
+// WaitReleaseAndExclude, DevInputWriter::open, TabletModeSwitchReader::open), the device thread, and then the
+// loop as above. The start-up follows a schedule of spec/Startup.tla (keys down at open, arrivals between the
+// opener's calls); every call of the start-up is logged as a record {"c":"su","k":<kind>,...} and judged by
+// spec/StartupTrace.tla. Kernel side modelled: EVIOCGKEY reports the device's key state, EVIOCGRAB succeeds,
+// /dev/uinput accepts UI_SET_EVBIT / UI_SET_KEYBIT, the uinput_user_dev write and UI_DEV_CREATE.
+// ---------------------------------------------------------------------------------------------
+pub const KPATH: &str = "/dev/input/verif-event-keyboard";
+pub const TPATH: &str = "/dev/input/verif-event-tablet";
+const UPATH: &str = "/dev/uinput";
+
+#[derive(Clone, Debug)]
+enum SuLbl { Held(KeyCode), Arr(Event), Call(String) }
+
+struct Full {
+  phase: u8,                 // 0 = keyboard start-up, 1 = uinput set-up, 2 = the loop
+  sched: VecDeque<SuLbl>,
+  loop_noise: u8,
+  keybits: Vec<i64>,         // consecutive UI_SET_KEYBIT values, logged as one record
+  registered: bool
+}
+
+fn parse_su_labels(v: &Value) -> Vec<SuLbl> {
+  v.as_array().map(|a| a.iter().map(|l| {
+    let (a, t, k) = (l["a"].as_str().unwrap_or(""), l["t"].as_str().unwrap_or(""), l["k"].as_str().unwrap_or(""));
+    match a {
+      "held" => SuLbl::Held(kparse(k).unwrap()),
+      "arrK" => SuLbl::Arr(pev(&json!({"t": t, "k": k})).unwrap()),
+      c => SuLbl::Call(c.to_string())
+    }
+  }).collect()).unwrap_or_default()
+}
+
+impl Sys {
+  fn su_log(&mut self, mut rec: Value) {
+    rec["c"] = json!("su");
+    rec["arrK"] = Value::Array(std::mem::take(&mut self.d.arr_k));
+    rec["arrT"] = json!([]);
+    let t = self.d.us();
+    rec["tin"] = json!(t); rec["tout"] = json!(t);
+    self.d.log.push(rec);
+  }
+  fn flush_keybits(&mut self) {
+    let kb = std::mem::take(&mut self.full.as_mut().unwrap().keybits);
+    if !kb.is_empty() { self.su_log(json!({"k": "keybits", "vals": kb})); }
+  }
+  // deliver the arrivals the schedule places before the opener's next call, and consume that call's label
+  fn su_step(&mut self) {
+    loop {
+      let f = self.full.as_mut().unwrap();
+      match f.sched.pop_front() {
+        Some(SuLbl::Arr(e)) => self.d.arrive_k(Some(e)),
+        Some(SuLbl::Held(_)) => (),
+        Some(SuLbl::Call(_)) | None => break
+      }
+    }
+  }
+  fn su_open(&mut self, path: &str, flags: i32) -> Option<i32> {
+    let (kind, fd) = if path == KPATH { ("kopen", self.kfd) } else if path == TPATH { ("topen", self.tfd) } else if path == UPATH { ("uopen", self.wfd) } else { return None; };
+    if kind == "uopen" { self.full.as_mut().unwrap().phase = 1; }
+    self.su_log(json!({"k": kind, "flags": flags}));
+    Some(fd)
+  }
+  fn su_ioctl(&mut self, fd: i32, req: libc::c_ulong, arg: *mut libc::c_void) -> (i32, i32) {
+    let (ty, nr, size) = (((req >> 8) & 0xff) as u8, (req & 0xff) as u32, ((req >> 16) & 0x3fff) as usize);
+    if fd == self.kfd && ty == b'E' && nr == 0x18 {
+      // EVIOCGKEY(len): the device's key state as a bitmap
+      self.su_step();
+      let buf = unsafe { std::slice::from_raw_parts_mut(arg as *mut u8, size) };
+      for b in buf.iter_mut() { *b = 0; }
+      for k in &self.d.phys_down { let c = *k as usize; if c / 8 < size { buf[c / 8] |= 1 << (c % 8); } }
+      let names: Vec<String> = self.d.phys_down.iter().map(|k| kname(k)).collect();
+      self.su_log(json!({"k": "gkey", "len": size, "down": names}));
+      return (size as i32, 0);
+    }
+    if fd == self.kfd && ty == b'E' && nr == 0x90 {
+      self.su_step();
+      let v = if arg.is_null() { 0 } else { unsafe { *(arg as *const i32) } };
+      self.su_log(json!({"k": "grab", "arg": v}));
+      return (0, 0);
+    }
+    if fd == self.wfd && ty == b'U' && nr == 100 { self.flush_keybits(); self.su_log(json!({"k": "evbit", "v": arg as usize as i64})); return (0, 0); }
+    if fd == self.wfd && ty == b'U' && nr == 101 { self.full.as_mut().unwrap().keybits.push(arg as usize as i64); return (0, 0); }
+    if fd == self.wfd && ty == b'U' && nr == 1 {
+      self.flush_keybits();
+      self.su_log(json!({"k": "create"}));
+      let f = self.full.as_mut().unwrap();
+      f.phase = 2;
+      self.noise = f.loop_noise;
+      return (0, 0);
+    }
+    self.flush_keybits();
+    self.su_log(json!({"k": "ioctl", "fd": if fd == self.kfd { "keyboard" } else if fd == self.wfd { "uinput" } else { "tablet" }, "type": ty, "nr": nr}));
+    (0, 0)
+  }
+  // wait_for_any_activity: one record from the client buffer, or EAGAIN
+  fn su_read(&mut self, buf: *mut u8, count: usize) -> (isize, i32) {
+    self.su_step();
+    if count < 24 { return (-1, 22); }
+    match self.d.kq.front() {
+      Some(Some(_)) => {
+        let e = self.d.kq.pop_front().unwrap().unwrap();
+        let (code, value) = match &e { Event::Pressed(k) => (*k as u16, 1), Event::Released(k) => (*k as u16, 0) };
+        let f = frame(1, code, value);
+        unsafe { std::ptr::copy_nonoverlapping(f.as_ptr(), buf, 24); }
+        self.su_log(json!({"k": "read", "res": "one", "e": jev(&e)}));
+        (24, 0)
+      },
+      _ => { self.su_log(json!({"k": "read", "res": "busy", "e": {"t": "-", "k": ""}})); (-1, E_AGAIN) }
+    }
+  }
+  // wait_for_any_activity's own poll (no time-out): returns once the buffer is readable
+  fn su_poll(&mut self, events: *mut libc::epoll_event) -> (i32, i32) {
+    self.su_step();
+    while self.d.kq.is_empty() {
+      // a legal environment lets go of the keys in the end: the next scheduled arrival, else a release of a key that is down
+      let next = { let f = self.full.as_mut().unwrap(); let mut n = None; while let Some(l) = f.sched.pop_front() { if let SuLbl::Arr(e) = l { n = Some(e); break; } } n };
+      match next {
+        Some(e) => self.d.arrive_k(Some(e)),
+        None => match self.d.phys_down.first().cloned() { Some(k) => self.d.arrive_k(Some(Event::Released(k))), None => break }
+      }
+    }
+    self.su_log(json!({"k": "poll", "res": if self.d.kq.is_empty() { "timeout" } else { "dev" }}));
+    if self.d.kq.is_empty() { return (0, 0); }
+    unsafe { std::ptr::write_unaligned(events, libc::epoll_event { events: libc::EPOLLIN as u32, u64: 0 }); }
+    (1, 0)
+  }
+  fn su_udev_write(&mut self, buf: *const u8, count: usize) -> (isize, i32) {
+    self.flush_keybits();
+    let bytes: Vec<u8> = unsafe { std::slice::from_raw_parts(buf, count) }.to_vec();
+    self.su_log(json!({"k": "udev", "bytes": bytes}));
+    (count as isize, 0)
+  }
+}
+
+fn run_one_full(id: &str, layout: &Layout, labels: &[Lbl], su: &[SuLbl], noise: u8, out: &mut dyn Write) -> usize {
+  let mut d = new_drv(layout, labels, 0, &[]);
+  for l in su { if let SuLbl::Held(k) = l { d.phys_down.push(*k); } }
+  let (kfd, tfd, wfd) = (new_fd(), new_fd(), new_fd());
+  let unknown_code = (1u16..768).rev().find(|c| <KeyCode as FromPrimitive>::from_u16(*c).is_none()).unwrap_or(767);
+  let full = Full { phase: 0, sched: su.iter().cloned().collect(), loop_noise: noise, keybits: vec![], registered: false };
+  sys_install(Sys { d, kfd, tfd, wfd, kbytes: VecDeque::new(), tbytes: VecDeque::new(), noise: 0, full: Some(full), down: vec![], werr: E_IO, unknown_code });
+  let lay = layout.clone();
+  let r = std::panic::catch_unwind(std::panic::AssertUnwindSafe(|| {
+    crate::remapping_loop::do_remapping_loop_these_devices(&vec![std::path::PathBuf::from(KPATH)], &lay, &Some(std::path::PathBuf::from(TPATH)), false)
+  }));
+  let sys = sys_take();
+  unsafe { libc::close(kfd); libc::close(tfd); libc::close(wfd); }
+  let held: Vec<String> = su.iter().filter_map(|l| if let SuLbl::Held(k) = l { Some(kname(k)) } else { None }).collect();
+  write_trace(id, layout, 0, &[], &sys.d, r, json!({"mode": "full", "slack": 999, "errtext": false, "noise": noise, "werr": 5, "held": held}), out);
   sys.d.calls
 }
